@@ -483,9 +483,9 @@ SameOrder ==
     \A i \in 1..NSlots, j \in 1..NSlots :
        (L[i] /\ L[j]) => ((X[i] < X[j]) = (Y[i] < Y[j]))
 
-OrderOnly ==
-    (SameShape /\ SameOrder) =>
-       /\ R10_PowerLevels(v, st, ev) = R10_PowerLevels(v, st2, ev2)
-       /\ NoEscInt(v, st, ev) = NoEscInt(v, st2, ev2)
-       /\ UserLevel(v, st, ev.sender).inf = UserLevel(v, st2, ev2.sender).inf
+\* one direction suffices: SameShape and SameOrder are symmetric in the two scenarios
+OrderOnly_R10   == (SameShape /\ SameOrder /\ R10_PowerLevels(v, st, ev)) => R10_PowerLevels(v, st2, ev2)
+OrderOnly_NoEsc == (SameShape /\ SameOrder /\ NoEscInt(v, st, ev)) => NoEscInt(v, st2, ev2)
+OrderOnly_Inf   == SameShape => (UserLevel(v, st, ev.sender).inf = UserLevel(v, st2, ev2.sender).inf)
+OrderOnly == OrderOnly_R10 /\ OrderOnly_NoEsc /\ OrderOnly_Inf
 =============================================================================
